@@ -112,6 +112,11 @@ def _append_mut(a, i):
     return a
 
 
+def _term_mark_mut(a):
+    a.append(-1)
+    return a
+
+
 def _dict_count(a, i):
     a[i % 3] = a.get(i % 3, 0) + 1
     return a
@@ -310,6 +315,8 @@ _FUNCS = {
     'term_addk': lambda k: (lambda a: a + k),
     'term_sorted': lambda: (lambda a: sorted(a)),
     'term_mark': lambda: (lambda a: a + [-1]),
+    # a terminator that finalises its accumulator IN PLACE and returns it (the idiom of the in-place accumulators)
+    'term_mark_mut': lambda: _term_mark_mut,
     # two-argument predicates (assert_1)
     'true2': lambda: (lambda a, b: True),
     'le2': lambda: (lambda a, b: a <= b),
